@@ -536,6 +536,13 @@ func C12(c *core.Ctx) {
 
 	// ---- R12.6 (shared with C03 R3.4) the post-signing length fix-up keeps the header
 	// inside the buffer that replaces the wire segment
+	// ---- R12.9 (shared with C13 R13.13) the digest and signature ranges the parser
+	// reconstructs end where the encoder's end: an element of a known type that arrives
+	// behind the field cursor must not run the cursor past the range markers (that closes
+	// the parameters-digest range at this element instead of at the end of the Interest)
+	c.Import(C13, "R12.9", "the ordered parser of the packet closes its covered ranges early at an element that arrives behind the field cursor: bytes appended behind an Interest's parameters or signature escape the parameters digest, and the Interest is accepted although its digest does not match", 2, func(k string) bool {
+		return strings.HasPrefix(k, "R13.13:ordered-element-consumed-or-refused:std/ndn/spec_2022.")
+	})
 	c.Import(C03, "R12.6", "the outer length fix-up after signing corrupts the header of a packet whose Length shrinks to a shorter encoding: the packet sent is not the packet signed", 2, func(k string) bool {
 		return strings.HasPrefix(k, "R3.4:")
 	})
